@@ -490,6 +490,49 @@ func stressRestOfAPI(g, c int, rng *rand.Rand) bool {
 	if err != nil || fp.SeqID != int32(c) || fp.IntInfo[uint16(50+g)] != string([]byte{'v', byte('0' + c%10)}) || fp.StrInfo["k"] != string([]byte{byte('a' + g%26)}) || fp.PayloadLen != 3 {
 		ok = false
 	}
+	// 8. the failure paths (error values may be built from shared scratch): every decoder on its own damaged input
+	cutAt := 14 + 2 + ntr + 3 + (g+c)%6 // inside the int section
+	hdr := append([]byte(nil), fr[:cutAt]...)
+	hdr[12], hdr[13] = fr[12], fr[13] // the size field still announces the full header
+	bad := append(append([]byte(nil), fr[:14+len(info)]...), 0)
+	bad[14+2+ntr] = 0x10
+	bad[14+2+ntr+1], bad[14+2+ntr+2] = 0x7f, 0xff // an int section announcing 32767 entries
+	for _, in := range [][]byte{hdr, bad} {
+		if _, e := ttheader.DecodeFromBytes(context.Background(), in); e == nil || e.Error() == "" {
+			ok = false
+		}
+		srd := bufiox.NewDefaultReader(&dataSource{data: in, chunks: []int{3}})
+		if _, e := ttheader.Decode(context.Background(), srd); e == nil || e.Error() == "" {
+			ok = false
+		}
+		srd.Release(nil)
+	}
+	trunc := nb[:len(nb)-1-(g+c)%5]
+	if _, e := thrift.Binary.Skip(trunc, thrift.MAP); e == nil || e.Error() == "" {
+		ok = false
+	}
+	if _, e := base.NewBaseResp().FastRead(rb[:len(rb)-2]); e == nil || e.Error() == "" {
+		ok = false
+	}
+	if _, e := thrift.NewApplicationException(0, "").FastRead(eb[:len(eb)-3]); e == nil || e.Error() == "" {
+		ok = false
+	}
+	if _, e := uf.ConvertUnknownFields(trunc[:len(trunc)/2]); e == nil || e.Error() == "" {
+		ok = false
+	}
+	tbr := thrift.NewBufferReader(bufiox.NewDefaultReader(&dataSource{data: trunc, chunks: []int{7}}))
+	if e := tbr.Skip(thrift.MAP); e == nil || e.Error() == "" || !errors.Is(e, io.EOF) {
+		ok = false
+	}
+	tbr.Recycle()
+	tsd := thrift.NewReaderSkipDecoder(&dataSource{data: trunc, chunks: []int{5}})
+	if _, e := tsd.Next(thrift.MAP); e == nil || e.Error() == "" {
+		ok = false
+	}
+	tsd.Release()
+	if _, _, e := thrift.UnmarshalFastMsg(append(thrift.Binary.AppendMessageBegin(nil, fmt.Sprint("m", g), thrift.REPLY, int32(c)), rb[:len(rb)-2]...), base.NewBaseResp()); e == nil || e.Error() == "" {
+		ok = false
+	}
 	return ok
 }
 
